@@ -12,6 +12,7 @@ import (
 
 	remoteexecution "github.com/bazelbuild/remote-apis/build/bazel/remote/execution/v2"
 	"github.com/buildbarn/bb-remote-execution/pkg/builder"
+	"github.com/buildbarn/bb-remote-execution/pkg/cas"
 	"github.com/buildbarn/bb-remote-execution/pkg/filesystem/pool"
 	"github.com/buildbarn/bb-remote-execution/pkg/filesystem/virtual"
 	"github.com/buildbarn/bb-storage/pkg/clock"
@@ -85,7 +86,29 @@ var bg = context.Background()
 
 func comp(s string) path.Component { return path.MustNewComponent(s) }
 
-func vCreate(d virtual.PrepopulatedDirectory, name string, n *node) error {
+// closedChan: a writable-file upload delay that has already expired.
+var closedChan = func() chan struct{} { c := make(chan struct{}); close(c); return c }()
+
+// otherBytes: different contents of the same length.
+func otherBytes(s string) string {
+	b := []byte(s)
+	for i := range b {
+		if b[i] == '#' {
+			b[i] = '%'
+		} else {
+			b[i] = '#'
+		}
+	}
+	return string(b)
+}
+
+// vCreate creates n as child name of d. stale (fault letter "stale-digest"):
+// every non-empty file is first written with other bytes of the same length,
+// digested and uploaded in that state to a scratch CAS (as an earlier upload
+// or a Bazel Output Service stat would do), and only then rewritten in place
+// with its final bytes: a digest remembered from the first pass must not be
+// used for the upload under test.
+func vCreate(d virtual.PrepopulatedDirectory, name string, n *node, stale bool) error {
 	var out virtual.Attributes
 	switch n.kind {
 	case kDir:
@@ -94,7 +117,7 @@ func vCreate(d virtual.PrepopulatedDirectory, name string, n *node) error {
 			return err
 		}
 		for _, k := range n.names() {
-			if err := vCreate(c, k, n.children[k]); err != nil {
+			if err := vCreate(c, k, n.children[k], stale); err != nil {
 				return err
 			}
 		}
@@ -108,6 +131,16 @@ func vCreate(d virtual.PrepopulatedDirectory, name string, n *node) error {
 			return fmt.Errorf("VirtualOpenChild(%s): %v", name, s)
 		}
 		if len(n.data) > 0 {
+			if stale {
+				if _, s := leaf.VirtualWrite(bg, []byte(otherBytes(n.data)), 0); s != virtual.StatusOK {
+					return fmt.Errorf("VirtualWrite(%s): %v", name, s)
+				}
+				scratch := newWorld(newDir(), fault{})
+				p := virtual.ApplyUploadFile{Context: bg, ContentAddressableStorage: scratch.cas, DigestFunction: sha256Function, WritableFileUploadDelay: closedChan}
+				if !leaf.VirtualApply(&p) || p.Err != nil {
+					return fmt.Errorf("first upload of (%s): %v", name, p.Err)
+				}
+			}
 			if _, s := leaf.VirtualWrite(bg, []byte(n.data), 0); s != virtual.StatusOK {
 				return fmt.Errorf("VirtualWrite(%s): %v", name, s)
 			}
@@ -143,7 +176,7 @@ func vLookupDir(top virtual.PrepopulatedDirectory, loc []string) virtual.Prepopu
 	return d
 }
 
-func vPut(top virtual.PrepopulatedDirectory, p put) error {
+func vPut(top virtual.PrepopulatedDirectory, p put, stale bool) error {
 	if len(p.loc) == 0 {
 		return nil
 	}
@@ -160,7 +193,7 @@ func vPut(top virtual.PrepopulatedDirectory, p put) error {
 	if p.thing == nil {
 		return nil
 	}
-	return vCreate(d, name, p.thing)
+	return vCreate(d, name, p.thing, stale)
 }
 
 // backend is a real BuildDirectory implementation under test together with
@@ -175,12 +208,15 @@ type backend interface {
 }
 
 type virtualBackend struct {
+	w    *world
 	top  virtual.PrepopulatedDirectory
 	bd   builder.BuildDirectory
 	elog *errLog
 }
 
-func newVirtualBackend(w *world) backend {
+func newVirtualBackend(w *world) backend { return newVirtualBackendWith(w, nil) }
+
+func newVirtualBackendWith(w *world, fetcher cas.DirectoryFetcher) backend {
 	elog := &errLog{}
 	alloc := virtual.NewFUSEHandleAllocator(random.FastThreadSafeGenerator)
 	symlinkFactory := virtual.NewHandleAllocatingSymlinkFactory(virtual.NewBaseSymlinkFactory(noAttributes), alloc.New(), path.UNIXFormat)
@@ -189,15 +225,17 @@ func newVirtualBackend(w *world) backend {
 			virtual.NewPoolBackedFileAllocator(pool.EmptyFilePool, elog, noAttributes, virtual.NoNamedAttributesFactory), alloc),
 		symlinkFactory, elog, alloc, sort.Sort, func(string) bool { return false }, clock.SystemClock,
 		virtual.CaseSensitiveComponentNormalizer, noAttributes, virtual.NoNamedAttributesFactory)
-	bd := builder.NewVirtualBuildDirectory(top, nil, w.cas, symlinkFactory, nil, alloc, noAttributes, clock.SystemClock)
+	bd := builder.NewVirtualBuildDirectory(top, fetcher, w.cas, symlinkFactory, nil, alloc, noAttributes, clock.SystemClock)
 	bd.InstallHooks(memPool{}, elog)
-	return &virtualBackend{top: top, bd: bd, elog: elog}
+	return &virtualBackend{w: w, top: top, bd: bd, elog: elog}
 }
 
 func (b *virtualBackend) label() string                     { return "virtual" }
 func (b *virtualBackend) dir() builder.BuildDirectory       { return b.bd }
-func (b *virtualBackend) create(name string, n *node) error { return vCreate(b.top, name, n) }
-func (b *virtualBackend) put(p put) error                   { return vPut(b.top, p) }
+func (b *virtualBackend) create(name string, n *node) error { return vCreate(b.top, name, n, false) }
+func (b *virtualBackend) put(p put) error {
+	return vPut(b.top, p, b.w.fault.kind == faultStaleDigest)
+}
 func (b *virtualBackend) isDir(loc []string) bool           { return vLookupDir(b.top, loc) != nil }
 func (b *virtualBackend) finish() {
 	if len(b.elog.errs) > 0 {
@@ -212,7 +250,9 @@ type naiveBackend struct {
 	bd   builder.BuildDirectory
 }
 
-func newNaiveBackend(w *world) backend {
+func newNaiveBackend(w *world) backend { return newNaiveBackendWith(w, nil) }
+
+func newNaiveBackendWith(w *world, fetcher cas.DirectoryFetcher) backend {
 	base, err := os.MkdirTemp("", "verif-outputs-")
 	if err != nil {
 		panic(err)
@@ -222,7 +262,88 @@ func newNaiveBackend(w *world) backend {
 		os.RemoveAll(base)
 		panic(err)
 	}
-	return &naiveBackend{base: base, bd: builder.NewNaiveBuildDirectory(d, nil, nil, nil, w.cas)}
+	return &naiveBackend{base: base, bd: builder.NewNaiveBuildDirectory(&racingDirectory{DirectoryCloser: d, w: w, base: base}, fetcher, nil, nil, w.cas)}
+}
+
+// racingDirectory wraps the real local directory handed to
+// naiveBuildDirectory: it journals which files are opened for reading and
+// implements the fault letter "rewrite-after-digest-pass": the file at the
+// fault location is rewritten in place on disk, with other bytes of the same
+// length, right after the ReadAt that delivers its last byte for the first
+// time - i.e. when the digest pass of UploadFile has seen everything and the
+// transfer pass has not started. The model node keeps both contents.
+type racingDirectory struct {
+	filesystem.DirectoryCloser
+	w      *world
+	base   string
+	loc    string
+	closed bool
+}
+
+func (d *racingDirectory) Close() error {
+	if d.closed {
+		return nil // the executor and the harness both close the build directory
+	}
+	d.closed = true
+	return d.DirectoryCloser.Close()
+}
+
+func (d *racingDirectory) EnterDirectory(name path.Component) (filesystem.DirectoryCloser, error) {
+	c, err := d.DirectoryCloser.EnterDirectory(name)
+	if err != nil {
+		return nil, err
+	}
+	return &racingDirectory{DirectoryCloser: c, w: d.w, base: d.base, loc: join(d.loc, name.String())}, nil
+}
+
+func (d *racingDirectory) OpenRead(name path.Component) (filesystem.FileReader, error) {
+	f, err := d.DirectoryCloser.OpenRead(name)
+	if err != nil {
+		return nil, err
+	}
+	size, err := f.Len()
+	if err != nil || size == 0 {
+		return f, nil
+	}
+	l := join(d.loc, name.String())
+	d.w.opened = append(d.w.opened, l)
+	return &racingFile{FileReader: f, d: d, loc: l, size: size}, nil
+}
+
+type racingFile struct {
+	filesystem.FileReader
+	d     *racingDirectory
+	loc   string
+	size  int64
+	fired bool
+}
+
+func (f *racingFile) ReadAt(p []byte, off int64) (int, error) {
+	n, err := f.FileReader.ReadAt(p, off)
+	w := f.d.w
+	if !f.fired && off+int64(n) >= f.size {
+		f.fired = true
+		if w.fault.kind == faultRewrite && w.fault.arg == f.loc && !w.hit {
+			m := w.root.lookup(strings.Split(f.loc, "/"))
+			if m == nil || m.kind != kFile || int64(len(m.data)) != f.size {
+				panic("harness: rewrite fault at " + f.loc + " does not match the model: " + m.dump())
+			}
+			nb := otherBytes(m.data)
+			fh, err := os.OpenFile(filepath.Join(f.d.base, filepath.FromSlash(f.loc)), os.O_WRONLY, 0)
+			if err != nil {
+				panic(err)
+			}
+			if _, err := fh.WriteAt([]byte(nb), 0); err != nil {
+				panic(err)
+			}
+			if err := fh.Close(); err != nil {
+				panic(err)
+			}
+			m.alt, m.hasAlt, m.data = m.data, true, nb
+			w.hit = true
+		}
+	}
+	return n, err
 }
 
 func (b *naiveBackend) label() string               { return "naive" }
@@ -287,18 +408,18 @@ func (b *naiveBackend) put(p put) error {
 	return b.createAt(t, p.thing)
 }
 
-func runVirtual(fail failFn, in *input) { runBackend(fail, in, newVirtualBackend) }
-func runNaive(fail failFn, in *input)   { runBackend(fail, in, newNaiveBackend) }
+func runVirtual(fail failFn, in *input) *world { return runBackend(fail, in, newVirtualBackend) }
+func runNaive(fail failFn, in *input) *world   { return runBackend(fail, in, newNaiveBackend) }
 
 // runBackend: one input through a real BuildDirectory implementation.
 // Trouble of the harness itself (the file system refusing what the fake
 // action does) panics.
-func runBackend(fail failFn, in *input, mk func(w *world) backend) {
+func runBackend(fail failFn, in *input, mk func(w *world) backend) *world {
 	var locs [][]string
 	for _, p := range in.paths {
 		l, ok := resolveDeclared(in.wd, p)
 		if !ok {
-			return // rejection is covered by the fake-directory scenarios
+			return nil // rejection is covered by the fake-directory and executor scenarios
 		}
 		locs = append(locs, l)
 	}
@@ -306,7 +427,7 @@ func runBackend(fail failFn, in *input, mk func(w *world) backend) {
 	if in.pre != nil {
 		model = in.pre.clone()
 	}
-	w := newWorld(model, fault{})
+	w := newWorld(model, in.fault)
 	b := mk(w)
 	defer b.finish()
 	ffail := func(fp, format string, args ...any) {
@@ -319,7 +440,7 @@ func runBackend(fail failFn, in *input, mk func(w *world) backend) {
 	})
 	if err != nil {
 		ffail("spurious-reject", "NewOutputHierarchy failed: %v", err)
-		return
+		return w
 	}
 	bd := b.dir()
 	must := func(err error) {
@@ -344,7 +465,7 @@ func runBackend(fail failFn, in *input, mk func(w *world) backend) {
 		if !conflict {
 			ffail("create-parents-spurious-error", "CreateParentDirectories failed: %v", err)
 		}
-		return
+		return w
 	}
 	for _, l := range locs {
 		for i := 1; i < len(l); i++ {
@@ -354,7 +475,7 @@ func runBackend(fail failFn, in *input, mk func(w *world) backend) {
 			}
 			if n := model.lookup(l[:i]); n != nil && n.kind == kDir && !b.isDir(l[:i]) {
 				ffail("parent-missing", "CreateParentDirectories returned nil but %q is not a directory in the build directory", locString(l[:i]))
-				return
+				return w
 			}
 		}
 	}
@@ -362,17 +483,7 @@ func runBackend(fail failFn, in *input, mk func(w *world) backend) {
 	// The action, on the real directory and on the model.
 	puts := append([]put(nil), in.action...)
 	if in.decoys {
-		for _, u := range decoyUniverse {
-			rel := false
-			for _, l := range locs {
-				if related(u, l) {
-					rel = true
-				}
-			}
-			if !rel && model.lookup(u) == nil {
-				puts = append(puts, put{loc: u, thing: newFile("decoy:"+locString(u), len(u)%2 == 0)})
-			}
-		}
+		puts = append(puts, decoyPuts(model, locs)...)
 	}
 	for _, p := range puts {
 		must(b.put(p))
@@ -381,23 +492,51 @@ func runBackend(fail failFn, in *input, mk func(w *world) backend) {
 
 	ar := &remoteexecution.ActionResult{}
 	uploadErr := oh.UploadOutputs(bg, bd, w.cas, sha256Function, nil, ar, in.force)
-	if uploadErr != nil {
-		legit := false
-		for _, l := range locs {
-			if n := model.lookup(l); n != nil && hasSpecial(n) {
-				legit = true
-			}
-			for i := 1; i < len(l); i++ {
-				if n := model.lookup(l[:i]); n != nil && n.kind != kDir {
-					legit = true
-				}
-			}
-		}
-		if !legit {
-			ffail("upload-spurious-error", "UploadOutputs failed: %v; model=%s", uploadErr, model.dump())
-			return
-		}
+	if !casConsistent(ffail, w) {
+		return w
+	}
+	// Legitimate reasons for an error: a special file, a non-directory
+	// ancestor, or the upload noticed that a file changed under its feet.
+	if uploadErr != nil && !w.hit && !uploadErrLegit(model, locs) {
+		ffail("upload-spurious-error", "UploadOutputs failed: %v; model=%s", uploadErr, model.dump())
+		return w
 	}
 	wantRoot := in.force || in.format == 1 || in.format == 2
 	verifyResult(ffail, w, in.wd, in.paths, ar, wantRoot, uploadErr == nil)
+	return w
+}
+
+// decoyPuts: marker files at every location of the universe that is
+// unrelated to all declared locations and still free.
+func decoyPuts(model *node, locs [][]string) []put {
+	var puts []put
+	for _, u := range decoyUniverse {
+		rel := false
+		for _, l := range locs {
+			if related(u, l) {
+				rel = true
+			}
+		}
+		if !rel && model.lookup(u) == nil {
+			puts = append(puts, put{loc: u, thing: newFile("decoy:"+locString(u), len(u)%2 == 0)})
+		}
+	}
+	return puts
+}
+
+// uploadErrLegit: UploadOutputs may fail without any injected fault when a
+// declared path is (or contains) a special file, or a proper ancestor of a
+// declared location is not a directory.
+func uploadErrLegit(model *node, locs [][]string) bool {
+	for _, l := range locs {
+		if n := model.lookup(l); n != nil && hasSpecial(n) {
+			return true
+		}
+		for i := 1; i < len(l); i++ {
+			if n := model.lookup(l[:i]); n != nil && n.kind != kDir {
+				return true
+			}
+		}
+	}
+	return false
 }
